@@ -38,6 +38,9 @@ Qed.
 Lemma gl_observe c s x : in_uni c x = true -> gl (observe c s) x = Some (listed c s x).
 Proof. intros H. unfold gl, observe. cbn [o_list]. apply (nth_map_uni c (fun x => Some (listed c s x))); exact H. Qed.
 
+Lemma gm_observe c s x : in_uni c x = true -> gm (observe c s) x = mgr s x.
+Proof. intros H. unfold gm, observe. cbn [o_mgr]. apply nth_map_uni; exact H. Qed.
+
 (* ------------------------------------------------------------------ *)
 (* the specification does not depend on getter values outside the universe *)
 Ltac uni_rw c s :=
@@ -80,6 +83,7 @@ Proof.
   unfold obs_eqb. rewrite Z.eqb_refl, !Bool.eqb_reflx, !optZ_eqb_refl.
   rewrite (list_eqb_refl Z.eqb) by apply Z.eqb_refl.
   rewrite (list_eqb_refl ob_eqb) by (intros [b|]; [apply Bool.eqb_reflx|reflexivity]).
+  rewrite (list_eqb_refl Bool.eqb) by apply Bool.eqb_reflx.
   rewrite (list_eqb_refl (list_eqb Z.eqb)) by (intros; apply list_eqb_refl; apply Z.eqb_refl).
   reflexivity.
 Qed.
@@ -97,10 +101,13 @@ Qed.
 (* the clauses                                                         *)
 Lemma getters_ok c h s : Rel c h s -> m_getters c h (observe c s) = true.
 Proof.
-  intros (Rn & Rp & Rl & Ra). unfold m_getters. cbn [observe o_paused o_mig o_trap].
+  intros (Rn & Rp & Rl & Ra & Rm). unfold m_getters. cbn [observe o_paused o_mig o_trap].
   rewrite Rp, Ra, !Bool.eqb_reflx. cbn [andb negb]. rewrite !andb_true_r.
-  apply forallb_forall. intros x Hx. rewrite (gl_observe c s x (in_universe c x Hx)), Rl.
-  apply Bool.eqb_reflx.
+  apply andb_true_iff. split.
+  - apply forallb_forall. intros x Hx. rewrite (gl_observe c s x (in_universe c x Hx)), Rl.
+    apply Bool.eqb_reflx.
+  - apply forallb_forall. intros x Hx. rewrite (gm_observe c s x (in_universe c x Hx)), Rm.
+    apply Bool.eqb_reflx.
 Qed.
 
 (* the property clauses follow from exactness alone *)
@@ -118,6 +125,7 @@ Proof.
     repeat match goal with |- context [h_paused h] => destruct (h_paused h) end;
     repeat match goal with |- context [h_armed h] => destruct (h_armed h) end;
     repeat match goal with |- context [h_listed h ?x] => destruct (h_listed h x) end;
+    repeat match goal with |- context [h_mgr h ?x] => destruct (h_mgr h x) end;
     cbn [andb orb negb];
     repeat match goal with |- context [has_auth ?a ?x] => destruct (has_auth a x) end;
     cbn [andb orb negb];
